@@ -30,6 +30,8 @@ use vcommon::*;
 
 struct C43 {
     watchdog: Duration,
+    /// Operations that did not return within the watchdog so far in this run.
+    timeouts: std::sync::atomic::AtomicU32,
 }
 
 const MAX_URL: u64 = 999;
@@ -378,6 +380,19 @@ enum Req {
 }
 
 impl C43 {
+    /// The full watchdog until blocking operations have been confirmed with it
+    /// (`CONFIRM_TIMEOUTS` times); afterwards a short one, so that a change which makes a whole
+    /// class of operations block forever is reported in minutes rather than after
+    /// `cases x watchdog`.  On a tree without blocking operations this is always the full watchdog.
+    fn current_watchdog(&self) -> Duration {
+        const CONFIRM_TIMEOUTS: u32 = 3;
+        if self.timeouts.load(std::sync::atomic::Ordering::Relaxed) >= CONFIRM_TIMEOUTS {
+            self.watchdog.min(Duration::from_millis(250))
+        } else {
+            self.watchdog
+        }
+    }
+
     fn run_ops(&self, ops: &[Op]) -> Exec {
         let (req_tx, req_rx) = mpsc::channel::<Req>();
         let (res_tx, res_rx) = mpsc::channel::<String>();
@@ -415,11 +430,13 @@ impl C43 {
                 aliased_ext = true;
             }
             req_tx.send(Req::Op(op.clone())).expect("worker alive");
-            let got = match res_rx.recv_timeout(self.watchdog) {
+            let watchdog = self.current_watchdog();
+            let got = match res_rx.recv_timeout(watchdog) {
                 Ok(s) => s,
                 Err(_) => {
+                    self.timeouts.fetch_add(1, std::sync::atomic::Ordering::Relaxed);
                     outs.push("timeout".into());
-                    ex.violation("timeout", format!("op {i} `{op:?}` did not return within {:?}", self.watchdog));
+                    ex.violation("timeout", format!("op {i} `{op:?}` did not return within {watchdog:?}"));
                     hung = true;
                     break;
                 }
@@ -595,5 +612,5 @@ impl Prop for C43 {
 
 fn main() {
     let ms = std::env::var("C43_WATCHDOG_MS").ok().and_then(|s| s.parse().ok()).unwrap_or(4000);
-    run(C43 { watchdog: Duration::from_millis(ms) });
+    run(C43 { watchdog: Duration::from_millis(ms), timeouts: Default::default() });
 }
